@@ -216,7 +216,7 @@ fn conv_cfgs(tier: Tier, transpose: bool) -> Vec<ConvCfg> {
     }
     // ---- 2-D
     let hw: Vec<(usize, usize)> = if tier.is_thorough() { vec![(4, 5), (3, 3), (6, 4)] } else { vec![(4, 5), (3, 3)] };
-    let cmg2: Vec<(usize, usize, usize)> = if tier.is_thorough() { vec![(1, 1, 1), (2, 3, 1), (2, 4, 2), (3, 3, 3)] } else { vec![(1, 2, 1), (2, 4, 2), (3, 3, 3)] };
+    let cmg2: Vec<(usize, usize, usize)> = if tier.is_thorough() { vec![(1, 1, 1), (1, 2, 1), (2, 3, 1), (2, 4, 2), (3, 3, 3)] } else { vec![(1, 2, 1), (2, 4, 2), (3, 3, 3)] };
     for &(c, m, g) in &cmg2 {
         for &(h, w_) in &hw {
             for k in [[1usize, 1], [2, 3], [3, 3], [3, 1]] {
@@ -317,12 +317,14 @@ fn conv(op: &'static str, tier: Tier) -> Vec<Case> {
 
 fn conv_integer(tier: Tier) -> Vec<Case> {
     let mut out = Vec::new();
-    let cfgs: Vec<ConvCfg> = conv_cfgs(tier, false).into_iter().filter(|c| !c.bias).collect();
-    let step = if tier.is_thorough() { 3 } else { 7 };
-    for (i, c) in cfgs.into_iter().enumerate() {
-        if i % step != 0 {
-            continue;
-        }
+    // quick: every 7th configuration of the quick Conv grid; thorough: those plus every 3rd of the thorough grid
+    // (so that the thorough box contains the quick box)
+    let step = 7;
+    let mut cfgs: Vec<(usize, ConvCfg)> = conv_cfgs(Tier::Quick, false).into_iter().filter(|c| !c.bias).enumerate().filter(|(i, _)| i % 7 == 0).collect();
+    if tier.is_thorough() {
+        cfgs.extend(conv_cfgs(Tier::Thorough, false).into_iter().filter(|c| !c.bias).enumerate().filter(|(i, _)| i % 3 == 0).map(|(i, c)| (i * 7, c)));
+    }
+    for (i, c) in cfgs.into_iter() {
         for (xdt, wdt) in [(Dt::U8, Dt::U8), (Dt::U8, Dt::I8), (Dt::I8, Dt::I8), (Dt::I8, Dt::U8)] {
             let x = if xdt == Dt::U8 { fill_table(xdt, &c.x, &[3.0, 0.0, 255.0, 17.0, 128.0, 1.0], 1, 0) } else { fill_table(xdt, &c.x, &[3.0, -128.0, 127.0, -5.0, 0.0, 1.0], 1, 0) };
             let w = if wdt == Dt::U8 { fill_table(wdt, &c.w, &[1.0, 200.0, 0.0, 7.0], 1, 1) } else { fill_table(wdt, &c.w, &[1.0, -2.0, 127.0, -128.0, 0.0], 1, 1) };
@@ -348,9 +350,11 @@ fn conv_integer(tier: Tier) -> Vec<Case> {
                 let x_zp_effective = if xdt == Dt::U8 { true } else { matches!(zn, "x_zero_point scalar" | "both zero points scalar" | "w_zero_point per channel") };
                 if padded && x_zp_effective {
                     feats.push("padding with uint8 input or non-zero x_zero_point");
+                } else if padded {
+                    feats.push("padding");
                 }
-                if c.x[0] > 1 && zn != "zero points absent" && zn != "x_zero_point scalar" {
-                    feats.push("batch > 1 with w_zero_point");
+                if c.x[0] > 1 && (wdt == Dt::I8 || (zn != "zero points absent" && zn != "x_zero_point scalar")) {
+                    feats.push("batch > 1 with w_zero_point or int8 weights");
                 }
                 case.class = if feats.is_empty() { "plain".to_string() } else { feats.join("; ") };
                 case.vclass = String::new();
@@ -398,7 +402,7 @@ fn pool(op: &'static str, tier: Tier) -> Vec<Case> {
     let mut out = Vec::new();
     let is_max = op == "MaxPool";
     // ---- 1-D
-    let ls: Vec<usize> = if tier.is_thorough() { vec![4, 5, 7, 8] } else { vec![5, 6] };
+    let ls: Vec<usize> = if tier.is_thorough() { vec![4, 5, 6, 7, 8] } else { vec![5, 6] };
     for &l in &ls {
         for n_c in [(1usize, 1usize), (2, 3)] {
             let x = fill_table(Dt::F32, &[n_c.0, n_c.1, l], &[3.0, -2.0, 0.5, 5.0, -4.0, 1.0, 2.0, -1.0, 4.0, -3.0], 1, 0);
